@@ -10,6 +10,8 @@ THEOREMS = ['C09_b64decode_safe', 'C09_b64_roundtrip', 'C09_b64_roundtrip_exact'
 ENGINES = [
     dict(name='b64', c_sources=['b64_h.c'], extract='Extract/Extract_b64.v', driver='b64_driver.ml',
          accepts=lambda c: c.startswith('d1 ') or c.startswith('e1 ')),
+    dict(name='auth', c_sources=['auth_h.c'], extract='Extract/Extract_auth.v', driver='auth_driver.ml',
+         glue=('glue.ml', 'glue_z.ml'), accepts=lambda c: c.startswith('a1 ')),
 ]
 RULE = ('b64: decoder inputs = canonical encodings of random octet strings (0..600 octets, with/without CRLF breaks), single-octet '
         'mutations of them at every position class (NUL, =, CR, LF, 8-bit, non-alphabet), truncations, text after padding, '
@@ -59,10 +61,31 @@ def pad_regular(inp):
     return v % (16 if npad == 2 else 4) == 0
 
 
+def _auth_blobs(f):
+    """the Base64 texts of an a1 case: initial response and the complete client lines"""
+    linein = R.unhx(f[3])
+    blobs = [linein[11:]] if len(linein) > 11 else []
+    cur = b''
+    for r in f[6:]:
+        b = R.unhx(r)
+        if not b or b[0] == 1:
+            break
+        cur += b[1:]
+        if cur.endswith(b'\n'):
+            cur = cur[:-1]
+            if cur.endswith(b'\r'):
+                cur = cur[:-1]
+            blobs.append(cur)
+            cur = b''
+    return blobs
+
+
 def classify(case, c_out):
     f = case.split()
     if f[0] == 'd1':
         return None if pad_regular(R.unhx(f[1])) else 'b64_irregular_padding'
+    if f[0] == 'a1':
+        return None if all(pad_regular(b) for b in _auth_blobs(f)) else 'b64_irregular_padding'
     return None
 
 
@@ -169,7 +192,125 @@ def _exhaustive(symbols, k):
     return ['d1 ' + bytes(t).hex() for t in itertools.product(symbols, repeat=k)]
 
 
+USERS = [b'alice', b'bob@example.org', b'u', b'', b'a\0b', b'x' * 70, b'\xe4\xf6', b'root', b'user name']
+PASSES = [b'secret', b'p', b'', b'pa\0ss', b'y' * 90, b'\xff\xfe', b'12345678', b'pw with blank']
+MECHS = [b'PLAIN', b'LOGIN', b'plain', b'login', b'PlAiN', b'LoGiN']
+BADMECHS = [b'BOGUS', b'PLAINx', b'LOGINx', b'xPLAIN', b'LOGI', b'PLAI', b'', b'CRAM-MD5', b'PLAIN\t', b'LOGIN=']
+
+
+def _b64variant(rng, raw):
+    """Base64 of raw, mostly canonical, sometimes damaged"""
+    e = _b64.b64encode(raw)
+    r = rng.random()
+    if r < 0.72:
+        return e
+    if r < 0.8:
+        return _mutate(rng, e)
+    if r < 0.84:
+        return e.rstrip(b'=')                      # missing padding (irregular)
+    if r < 0.88:
+        return e + rng.choice([b'!!!!', b'=', b'QQ==', b' '])   # text behind the end
+    if r < 0.91:
+        return b'*'
+    if r < 0.94:
+        return b''
+    if r < 0.97:
+        return rng.choice([b'=', b'==', b'===', b'====', b'#', b'\0', b'QQ\0=', b'\r'])
+    return e[:max(0, len(e) - rng.randrange(1, 4))]
+
+
+def _chunks(rng, line):
+    """cut a line (with its line end) into net_readline results"""
+    out = []
+    m = rng.random()
+    while line:
+        if m < 0.5:
+            k = 64
+        elif m < 0.8:
+            k = rng.choice([1, 2, 3, 7, 31, 63, 64])
+        else:
+            k = rng.randrange(1, 65)
+        out.append('00' + line[:k].hex())
+        line = line[k:]
+    return out
+
+
+def _auth_case(rng, real_ok):
+    r = rng.random()
+    flags = 1 if r < 0.6 else rng.choice([5, 7, 3, 0, 2, 4, 6, 1, 5, 7, 1, 5])
+    if real_ok and rng.random() < 0.8:
+        flags = 1
+    an0 = b'' if rng.random() < 0.92 else rng.choice([b'alice', b'x'])
+    user, pw = rng.choice(USERS), rng.choice(PASSES)
+    if rng.random() < 0.5:
+        user, pw = rng.choice(USERS[:3]), rng.choice(PASSES[:2])
+    mech = rng.choice(MECHS) if rng.random() < 0.9 else rng.choice(BADMECHS)
+    ir = rng.random() < 0.45
+    eol = b'\r\n' if rng.random() < 0.85 else rng.choice([b'\n', b'\r\r\n', b'\r\n'])
+    lines = []
+    if mech.lower().startswith(b'plain') or rng.random() < 0.1:
+        m = rng.random()
+        if m < 0.7:
+            raw = rng.choice([b'', b'', b'authz', b'x']) + b'\0' + user + b'\0' + pw
+        elif m < 0.8:
+            raw = b'\0' + user + b'\0' + pw + rng.choice([b'\0', b'\0extra', b'\0\0'])
+        elif m < 0.9:
+            raw = rng.choice([user + b'\0' + pw, b'\0' + user, b'\0' + user + b'\0', b'\0\0' + pw, b'\0', b'', user + pw, b'\0\0\0'])
+        else:
+            raw = _rand_bytes(rng, rng.randrange(0, 40))
+        blobs = [_b64variant(rng, raw)]
+    else:
+        blobs = [_b64variant(rng, user), _b64variant(rng, pw)]
+    linein = b'AUTH ' + mech
+    if ir:
+        sep = b' ' if rng.random() < 0.93 else rng.choice([b'  ', b'', b'\t'])
+        linein += sep + blobs[0]
+        blobs = blobs[1:]
+    elif rng.random() < 0.1:
+        linein += b' '
+    if rng.random() < 0.02:
+        linein = linein.replace(b'A', b'\0', 1) if rng.random() < 0.3 else linein + b'\0x'
+    if len(linein) > 990:
+        linein = linein[:990]
+    reads = []
+    for b in blobs:
+        reads += _chunks(rng, b + eol)
+    m = rng.random()
+    if m < 0.08 and reads:
+        k = rng.randrange(len(reads))
+        reads = reads[:k] + ['01%02x' % rng.choice([104, 110, 5, 32])]
+    elif m < 0.12 and reads:
+        reads = reads[:rng.randrange(len(reads))]
+    elif m < 0.16:
+        reads += _chunks(rng, rng.choice([b'QQ==', b'*', b'', b'extra']) + b'\r\n')
+    elif m < 0.17:
+        reads = ['00'] + reads                     # an empty first chunk: outside net_readline's contract
+    elif m < 0.18:
+        reads = ['00' + (b'Q' * 70).hex()] + reads   # a chunk above 64: outside the contract
+    b = rng.random()
+    if real_ok:
+        be = rng.choice(['0300', '0300', '0300', '0301', '036f', '0400']) if b < 0.6 else '05%02x' % rng.randrange(1, 9)
+    elif b < 0.55:
+        be = '0000'
+    elif b < 0.77:
+        be = '0001'
+    elif b < 0.87:
+        be = '02%02x' % rng.randrange(256)
+    else:
+        be = rng.choice(['010c', '0116', '0002', '00ff', '0100', '0101'])
+    w = rng.random()
+    if w < 0.85:
+        ws = '-'
+    else:
+        k = rng.randrange(0, 4)
+        ws = '00' * k + '%02x' % rng.choice([32, 110, 104, 1, 255])
+    return 'a1 %02x %s %s %s %s %s' % (flags, R.hx(an0), R.hx(linein), be, ws, ' '.join(reads))
+
+
 def gen_cases(engine, rng, tier):
+    if engine == 'auth':
+        n, nreal = (2200, 140) if tier == 'quick' else (60000, 3000)
+        return [_auth_case(rng, False).rstrip() for _ in range(n)] + [_auth_case(rng, True).rstrip() for _ in range(nreal)]
     if engine == 'b64':
         if tier == 'quick':
             cs = _dec_cases(rng, 2200) + _enc_cases(rng, 500)
@@ -191,6 +332,9 @@ def nontrivial(case, c_out):
         return (o[0] == 'D0' and len(o) > 1 and o[1] != '-') or (o[0] == 'D1' and len(f[1]) >= 8)
     if f[0] == 'e1':
         return c_out.startswith('E0') and len(f[1]) >= 2
+    if f[0] == 'a1':
+        o = c_out.split()
+        return len(o) > 3 and o[0] == 'A' and (o[4] != 'W' or o[2] != '-')      # the backend was reached or an identity is set
     return False
 
 
